@@ -87,6 +87,13 @@ Proof.
   - apply slot_elem_exact.
 Qed.
 
+(* ---- reuse of trial-side transforms on the test side is sound under equality of the spaces ... --------- *)
+Theorem reuse_sound_under_space_equality :
+  forall G4 (g : geom) (s : space) (E : list nat) nEs quad nbrs (x : nat -> A) I,
+  curl_part_shared RO ver G4 g g s E nEs quad nbrs x I = curl_part RO ver G4 g g s s E E nEs quad nbrs x I /\
+  rwg_part_shared RO ver G4 g g s E nEs quad nbrs x I = rwg_part RO ver G4 g g s s E E nEs quad nbrs x I.
+Proof. intros. split; reflexivity. Qed.
+
 (* ---- refutation 1: map_space_to_points on a support that is not a prefix raises ------------------------- *)
 (* with the repaired indexing every support satisfies the support hypotheses *)
 Theorem fixed_indexing_all_supports :
@@ -158,6 +165,17 @@ Proof.
   - intros e f [<-|[]] [<-|[]]. reflexivity.
   - vm_compute. discriminate.
 Qed.
+
+(* ... and only then: same grid, same support, same dof map, but swapped normals on the test side *)
+Definition fixed_version : fmm_version := mk_version false false.
+Definition w_space_swapped : @space Z :=
+  {| s_nshape := 3; s_l2g := fun _ i => i; s_mult := fun _ _ => 1%Z; s_nmult := fun _ => (-1)%Z;
+     s_shape := p1_shape Zops1 |}.
+Theorem reuse_unsound_on_equal_grids :
+  curl_part_shared Zops1 fixed_version w_G4 w_geom w_geom w_space [0%nat; 2%nat] 3 w_quad w_nbrs (unitv Zops1 0) 0%nat <>
+  curl_part Zops1 fixed_version w_G4 w_geom w_geom w_space_swapped w_space [0%nat; 2%nat] [0%nat; 2%nat] 3 w_quad w_nbrs
+     (unitv Zops1 0) 0%nat.
+Proof. vm_compute. discriminate. Qed.
 
 (* the hypotheses of the glue theorems are satisfiable and the statement is not vacuous: a prefix support *)
 Example C17_hypotheses_satisfiable :
